@@ -435,6 +435,48 @@ def partial_api_histories(run, tier, log=print):
     return dict(evaluations=n, failures=bad)
 
 
+def bump_bounds_probe(run, tier, log=print):
+    """C05 through Lexer::bump: after any bump (ordinary, beyond the end, overflowing usize; successful or panicking and
+    caught), in all four builds (debug/release x default/forbid_unsafe), span() must satisfy start <= end <= len and the
+    slices must be obtainable.  Overflowing amounts matter in release builds, where `+` wraps."""
+    bins = build_libcheck(LIBCFG[tier])
+    reqs = []
+    for kind, srcs in (('s', ['ab c', 'aé', 'ab中c', '']), ('b', [b'ab c', b'ab \xff\xfe', b''])):
+        for src in srcs:
+            b = src.encode('utf-8') if isinstance(src, str) else src
+            ln = len(b)
+            ns = sorted(set(list(range(0, ln + 3)) + [USIZE_MAX, USIZE_MAX - 1, USIZE_MAX - 2, USIZE_MAX - ln, USIZE_MAX - ln + 1, USIZE_MAX - ln - 1, 2 ** 63, 2 ** 63 + 1, 2 ** 64 - 4]))
+            for nexts in (0, 1, 2, 3):
+                for n in ns:
+                    if 0 <= n <= USIZE_MAX:
+                        reqs.append('BUMP %s %s %d %d' % (kind, P.hexs(b), nexts, n))
+    cnt = bad = 0
+    for name, (binp, err) in bins.items():
+        if binp is None:
+            run.violation('libcheck-build', dict(config=name, stderr=err), no_input=True)
+            continue
+        out, rc = run_lib(binp, reqs)
+        for rq in reqs:
+            v = out.get(rq)
+            if v is None:
+                bad += 1
+                run.violation('bump-bounds', dict(config=name, request=rq, what='no answer (process died)'), key='bumpo|' + rq)
+                continue
+            if not v.startswith('pre:'):
+                continue
+            cnt += 1
+            t = rq.split(' ')
+            ln = len(bytes.fromhex(t[2] if t[2] != '-' else ''))
+            parts = v.split(' ')
+            s_, e_ = int(parts[2]), int(parts[3])
+            if s_ > e_ or e_ > ln or 'INVALIDSPAN' in v or 'SLICEPANIC' in v:
+                bad += 1
+                run.violation('bump-bounds', dict(config=name, request=rq, observed=v,
+                                                  what='after bump(%s) (%s) span() is %d..%d for a source of length %d' % (t[4], parts[1], s_, e_, ln)),
+                              key='bumpo|' + rq)
+    return dict(evaluations=cnt, failures=bad, configs=list(bins))
+
+
 def bump_boundary_probe(run, tier, log=print):
     """C04 through Lexer::bump: whatever a bump does (succeeds, or panics and is caught), span() of a str lexer must stay on
     char boundaries inside the source.  Real Lexer, two builds; the oracle is is_char_boundary on the reported span."""
